@@ -39,3 +39,23 @@ Example C20_instances :
   is_suppressed 157 8 = true /\ is_suppressed 95 2 = true /\ is_suppressed 160 16 = true /\
   is_suppressed 132 2 = false /\ rw_refuses [(11, [1]); (258, [26])] 136 = true.
 Proof. vm_compute. repeat split. Qed.
+
+(* ---- wire clause, on the datagram connection model (Dedup/Model.v) ---- *)
+From GoCoap Require Import Dedup.Model Dedup.Proofs.
+
+(* a suppressed response is never put on the wire: a confirmable request still gets exactly its
+   bare acknowledgement, a non-confirmable one gets nothing *)
+Theorem C20_wire_suppressed : forall s typ mid tok code ro rc o p,
+  (if is_cacheable_typ typ then cache_load (cache s) mid else None) = None ->
+  rw_refuses ro rc = true ->
+  o_out (snd (step s (Req typ mid tok code ro (BResp rc o p)))) = (if typ =? CON then [bare_ack mid] else []).
+Proof. exact wire_suppressed. Qed.
+Print Assumptions C20_wire_suppressed.
+
+(* a response of a class that was not suppressed is never dropped *)
+Theorem C20_wire_passed : forall s typ mid tok code ro rc o p,
+  (if is_cacheable_typ typ then cache_load (cache s) mid else None) = None ->
+  rw_refuses ro rc = false ->
+  exists r, o_out (snd (step s (Req typ mid tok code ro (BResp rc o p)))) = [r] /\ w_code r = rc /\ w_tok r = tok /\ w_pay r = p.
+Proof. exact wire_passed. Qed.
+Print Assumptions C20_wire_passed.
